@@ -29,6 +29,10 @@ type Scenario struct {
 	// Post, if set, inspects the whole result of the scenario (e.g. outcome-set oracles)
 	// and returns an extra verdict ("" = fine).
 	Post func(r *explore.Result) string
+	// Fresh, if set, is the same harness over a gateway that is rebuilt for every execution.
+	// It is the fallback when replays diverge: executions sharing one long-lived gateway are
+	// only independent as long as the gateway keeps no state between them.
+	Fresh func() explore.Harness
 }
 
 type Spec struct {
@@ -43,23 +47,24 @@ type Spec struct {
 var Specs = map[string]*Spec{}
 
 type scenResult struct {
-	Index       int               `json:"index"`
-	Name        string            `json:"name"`
-	Atoms       []string          `json:"atoms"`
-	Executions  int               `json:"executions"`
-	States      int               `json:"states"`
-	Transitions int               `json:"transitions"`
-	Pruned      int               `json:"pruned"`
-	Replays     int               `json:"replays"`
-	WithDev     int               `json:"with_deviation"`
-	MaxG        int               `json:"max_goroutines"`
-	Outcomes    map[string]int    `json:"outcomes"`
-	Failures    []explore.Failure `json:"failures"`
-	Capped      string            `json:"capped"`
-	Skipped     bool              `json:"skipped"`
-	EngineError string            `json:"engine_error"`
-	Bound       int               `json:"bound"`
-	Cache       bool              `json:"cache"`
+	Index        int               `json:"index"`
+	Name         string            `json:"name"`
+	Atoms        []string          `json:"atoms"`
+	Executions   int               `json:"executions"`
+	States       int               `json:"states"`
+	Transitions  int               `json:"transitions"`
+	Pruned       int               `json:"pruned"`
+	Replays      int               `json:"replays"`
+	WithDev      int               `json:"with_deviation"`
+	MaxG         int               `json:"max_goroutines"`
+	Outcomes     map[string]int    `json:"outcomes"`
+	Failures     []explore.Failure `json:"failures"`
+	Capped       string            `json:"capped"`
+	Skipped      bool              `json:"skipped"`
+	EngineError  string            `json:"engine_error"`
+	FreshGateway string            `json:"fresh_gateway,omitempty"`
+	Bound        int               `json:"bound"`
+	Cache        bool              `json:"cache"`
 }
 
 func runScenario(i int, sc Scenario, deadline time.Time) scenResult {
@@ -74,6 +79,11 @@ func runScenario(i int, sc Scenario, deadline time.Time) scenResult {
 		return out
 	}
 	r := explore.Explore(opt, sc.H)
+	if r.HarnessError != "" && sc.Fresh != nil {
+		shared := r.HarnessError
+		r = explore.Explore(opt, sc.Fresh())
+		out.FreshGateway = "executions on the shared gateway were not independent (" + shared + "); re-explored with a gateway built per execution"
+	}
 	out.Executions, out.States, out.Transitions, out.Pruned, out.Replays = r.Executions, r.States, r.Transitions, r.Pruned, r.Replays
 	out.WithDev, out.MaxG, out.Outcomes, out.Failures, out.Capped, out.EngineError = r.WithDeviation, r.MaxGoroutines, r.Outcomes, r.Failures, r.Capped, r.HarnessError
 	if sc.Post != nil && r.Capped == "" {
